@@ -6,7 +6,7 @@ From Coq Require String.
 Import String.StringSyntax.
 Import ListNotations.
 From OV Require Import Base.Bytes Base.Utf8 Base.Cases Base.Tree Model.Csv Model.Fixed Model.Delim
-  Proofs.DelimUtf8 Proofs.DelimCsv Proofs.DelimFixed Proofs.DelimReaders.
+  Proofs.DelimUtf8 Proofs.DelimCsv Proofs.DelimFixed Proofs.DelimReaders Proofs.DelimLine Proofs.DelimCsv2 Proofs.DelimJump Proofs.DelimValid Proofs.DelimFixed2 Proofs.DelimFixed1.
 Local Open Scope string_scope.
 Local Open Scope list_scope.
 
@@ -22,11 +22,26 @@ Theorem fixed_slice_spec : forall start_pos len line,
   rune_slice start_pos len line = concat (firstn len (skipn (start_pos - 1) (chunks line))).
 Proof. exact fixed_slice_spec. Qed.
 
+(* on valid UTF-8 (utf8.Valid) the slice is the re-encoding of the runes [start_pos, start_pos+length)
+   of []rune(line) *)
+Theorem fixed_slice_valid : forall start_pos len line, utf8_valid line = true ->
+  rune_slice start_pos len line = encode_runes (firstn len (skipn (start_pos - 1) (runes line))).
+Proof. exact fixed_slice_valid_proof. Qed.
+
+(* the bytes DecodeRune consumes are the encoding of the rune it returns, unless it reports
+   (RuneError, 1): complete sweeps over lead and continuation bytes *)
+Theorem decode_then_encode : forall b0 rest,
+  is_error_step (decode_rune (b0 :: rest)) = false ->
+  firstn (snd (decode_rune (b0 :: rest))) (b0 :: rest) = encode_rune (fst (decode_rune (b0 :: rest))).
+Proof. exact decode_then_encode. Qed.
+
 Example fixed_slice_nonvacuous :
   rune_slice 2 3 (hx "61c3a9e697a5ff62") = hx "c3a9e697a5ff"        (* a é 日 \xff b : [2,5) *)
   /\ rune_slice 5 9 (hx "61c3a9e697a5ff62") = hx "62"                 (* reaches past the end *)
-  /\ rune_slice 9 2 (hx "61c3a9e697a5ff62") = [].                     (* entirely past the end *)
-Proof. vm_compute. auto. Qed.
+  /\ rune_slice 9 2 (hx "61c3a9e697a5ff62") = []                      (* entirely past the end *)
+  /\ utf8_valid (hx "61c3a9e697a5f09f988062") = true
+  /\ rune_slice 2 3 (hx "61c3a9e697a5f09f988062") = encode_runes [233; 26085; 128512]%N.
+Proof. vm_compute. auto 6. Qed.
 
 (* ---- csv: the RFC reader reads back every table the encoder writes ----------------------------- *)
 (* for all delimiters encoding/csv accepts (any valid rune except NUL, the double quote, CR, LF, U+FFFD), all
@@ -95,6 +110,29 @@ Theorem csv_header_then_rows : forall trim d hdr t trailing,
   = map (row_node d) t ++ [OEOF].
 Proof. exact (fun trim d hdr t trailing V => header_then_rows trim d V hdr t trailing). Qed.
 
+(* every header_row_index / data_row_index, every table (blank lines and multi-line rows anywhere,
+   also before the header and between header and data), any number of Reads that is large enough:
+   the reader delivers exactly old_spec - jumpTo reads whole records while the decoder's physical
+   line counter is below the index (jump_spec; a record takes row_lines physical lines), the next
+   record is the header, and after the data-row jump every remaining row is delivered in order. *)
+Theorem csv_jump_general : forall trim d rows trailing count,
+  valid_delim (d_delim d) = true -> d_replace_dq d = false ->
+  Forall (wf_row (encode_rune (d_delim d))) rows -> length rows < count ->
+  run_reads ost (old_read trim d) count
+            (old_init d (flat_map (enc_row (encode_rune (d_delim d))) rows ++ flat_map eol trailing))
+  = old_spec trim d rows.
+Proof. exact (fun trim d rows trailing count V => csv_jump_general_proof trim d V rows trailing count). Qed.
+
+Example csv_jump_nonvacuous :
+  (* header on line 1, data_row_index 4; rows a / x / (blank) y / z: the jump to line 3 reads the
+     record "y" together with the blank line before it, so only z is delivered *)
+  let d := mkCsvDecl 44%N false (Some 1) 4 [(hx "61", hx "61")] in
+  let row v bl := mkRow bl [(false, v)] false in
+  let rows := [row (hx "61") []; row (hx "78") []; row (hx "79") [false]; row (hx "7a") []] in
+  old_spec trim_space d rows = [ONode (T DocumentNode [] FNone [text_elem (hx "61") (hx "7a")]); OEOF]
+  /\ run_reads ost (old_read trim_space d) 5 (old_init d (hx "610a780a0a790a7a0a")) = old_spec trim_space d rows.
+Proof. vm_compute. auto. Qed.
+
 (* a declared header that does not match (or cannot be read) is rejected with the fatal header
    error by the first Read, before any record: for every input, every header_row_index, any
    number of further Reads requested.  [trim] is strings.TrimSpace (any function). *)
@@ -129,35 +167,57 @@ Example csv_header_nonvacuous :
   /\ run_reads ost (old_read trim_space d) 3 (old_init d (hx "613b630a313b320a")) = [OFatal].
 Proof. vm_compute. auto. Qed.
 
-(* ---- csv2: the record buffer ---------------------------------------------------------------------------
-   Full statement (csv2_column_fidelity): for every declaration list and every input, each delivered
-   record node holds, per declared column, field `index` of the row selected by line_index /
-   line_pattern among the record's rows ("" beyond the row; no row selected: absent), and rows are
-   consumed in input order.
-   Proved: [rep s rows] (the reader-owned records slice + (recordStart, recordNum) denote exactly
-   the rows read and not yet consumed) is preserved by every buffer operation - readLine appends the
-   record encoding/csv returned, popFront n drops the first n rows and shifts the rest, matchLine sees
-   the row joined by the delimiter (the raw cache is invisible), a column value is field `index`
-   of its row or "" - no slice index is out of range; linesToNode + popFront build node_spec of the
-   first n buffered rows; and a rows based ReadAndMatch delivers node_spec of the next n rows in
-   reading order and consumes exactly those (csv2_column_fidelity_rows_partial).
-   Missing: the same composition for the header/footer loop, and the hierarchy reader above
-   ReadAndMatch (C05's subject); both are validated by the correspondence runs. *)
-Theorem csv2_column_fidelity_rows_partial : forall re_match comma delim d n s rows t s',
+(* ---- csv2 ---------------------------------------------------------------------------------------------
+   csv2_column_fidelity, at the level of the record reader (flatfile.RecReader) and for every
+   declaration, every input and every sequence of calls a hierarchy reader can make:
+   - [rep s rows]: the reader-owned records slice + each line's (recordStart, recordNum) denote
+     exactly the rows read and not yet consumed; preserved by readLine (appends the record
+     encoding/csv returned), popFront (drops the first n rows, shifts the rest), matchLine (sees the
+     row joined by the delimiter; the raw cache is invisible); a column value is field `index` of
+     its row or ""; no slice index is out of range;
+   - a rows based ReadAndMatch delivers node_spec of the next n rows, a header/footer based one
+     node_spec of the rows from the header row to the first row matching the footer, and consumes
+     exactly those rows (node_spec: per declared column, in declaration order, field `index` of the
+     first row selected by line_index / line_pattern, "" beyond the row, absent if no row is selected);
+   - over any call sequence the delivered nodes are node_spec of consecutive segments of the record
+     stream of the input and their concatenation is exactly the consumed prefix (input order, nothing
+     skipped, nothing delivered twice), and no call panics.
+   Not covered here: which calls the hierarchy reader makes (C05). *)
+Theorem csv2_column_fidelity_rows : forall re_match comma delim d n s rows t s',
   rep delim s rows -> q_shape d = Rows n ->
   read_and_match2 re_match comma delim d true s = (Ok (true, Some t), s') ->
   exists more, t = node_spec re_match delim d (firstn n (rows ++ more))
                /\ rep delim s' (skipn n (rows ++ more)).
 Proof. exact csv2_rows_record_proof. Qed.
 
-Theorem csv2_lines_to_node_partial : forall re_match delim d n s rows,
+Theorem csv2_column_fidelity_header_footer : forall re_match comma delim d header footer s rows t s',
+  rep delim s rows -> q_shape d = HeaderFooter header footer ->
+  read_and_match2 re_match comma delim d true s = (Ok (true, Some t), s') ->
+  exists more j row0,
+    nth_error (rows ++ more) 0 = Some row0 /\ re_match header (join delim row0) = true
+    /\ first_footer re_match delim footer (rows ++ more) 0 j
+    /\ t = node_spec re_match delim d (firstn (S j) (rows ++ more))
+    /\ rep delim s' (skipn (S j) (rows ++ more)).
+Proof. exact csv2_hf_record_proof. Qed.
+
+Theorem csv2_delivery_order : forall re_match comma delim replace input ops,
+  let s0 := csv2_init replace input in
+  let '(es, dls, s') := run2 re_match comma delim s0 ops in
+  exists all segs k,
+    stream comma (s_c s0) (s_c s') all /\ rep delim s' (skipn k all)
+    /\ Forall (fun e => forall p, e <> Some (OPanic p)) es
+    /\ Forall2 (fun dt seg => snd dt = node_spec re_match delim (fst dt) seg) dls segs
+    /\ concat segs = firstn k all.
+Proof. exact csv2_sequence_proof. Qed.
+
+Theorem csv2_lines_to_node : forall re_match delim d n s rows,
   rep delim s rows -> n <= length rows ->
   exists s', take_record2 re_match delim d n true s
              = (Ok (true, Some (node_spec re_match delim d (firstn n rows))), s')
              /\ rep delim s' (skipn n rows) /\ s_c s' = s_c s.
 Proof. exact take_record2_rep. Qed.
 
-Theorem csv2_readline_appends_partial : forall delim comma s rows, rep delim s rows ->
+Theorem csv2_readline_appends : forall delim comma s rows, rep delim s rows ->
   match csv_next comma (s_c s) with
   | (CRec rec, c') => exists s', c2_readline comma s = (Ok true, s') /\ rep delim s' (rows ++ [rec]) /\ s_c s' = c'
   | (CEOF, c') => exists s', c2_readline comma s = (Ok false, s') /\ rep delim s' rows /\ s_c s' = c'
@@ -165,17 +225,17 @@ Theorem csv2_readline_appends_partial : forall delim comma s rows, rep delim s r
   end.
 Proof. exact (fun delim comma => c2_readline_rep comma delim). Qed.
 
-Theorem csv2_pop_front_partial : forall delim s rows n, rep delim s rows -> n <= length rows ->
+Theorem csv2_pop_front : forall delim s rows n, rep delim s rows -> n <= length rows ->
   exists s', pop_front2 n s = (Ok tt, s') /\ rep delim s' (skipn n rows) /\ s_c s' = s_c s.
 Proof. exact pop_front2_rep. Qed.
 
-Theorem csv2_column_value_partial : forall delim s rows i l row c, rep delim s rows ->
+Theorem csv2_column_value : forall delim s rows i l row c, rep delim s rows ->
   nth_error (s_lines s) i = Some l -> nth_error rows i = Some row ->
   col_value2 c l (s_records s) =
   Ok (if (k_index c <? 1) || (length row <? k_index c) then [] else nth (k_index c - 1) row []).
 Proof. exact col_value2_rep. Qed.
 
-Theorem csv2_match_line_partial : forall re_match delim p s rows i row,
+Theorem csv2_match_line : forall re_match delim p s rows i row,
   rep delim s rows -> nth_error rows i = Some row ->
   exists s', match_line re_match delim p i s = (Ok (re_match p (join delim row)), s')
              /\ rep delim s' rows /\ s_c s' = s_c s.
@@ -204,6 +264,82 @@ Theorem fixed2_no_poison : forall re_match input ops,
          (rr_run re_match (f2_init input) ops).
 Proof. exact fixed2_no_poison_proof. Qed.
 
+(* ---- old fixed-length reader ------------------------------------------------------------------------
+   lines_from inp ls rest: ls are the next non-empty lines of inp (empty lines skipped), rest is
+   what follows.  kids_spec cols ls: line by line, every still-missing column whose FIRST matching
+   line (line_pattern; no pattern = any line) it is, as the rune slice of that line - so a column
+   holds the text of the first line of the envelope that its pattern selects, a column no line
+   selects is absent.  For every declaration, every input, every regexp behaviour: *)
+Theorem fixed1_rows_read : forall re_match e tl inp ls rest k,
+  e_hf e = None -> lines_from inp ls rest -> length ls = e_rows e ->
+  f1_read re_match (S k) (e :: tl) (mkF1 inp 0)
+  = (ONode (T ElementNode (e_name e) FNone (kids_spec re_match (undone (e_cols e)) ls)), mkF1 rest 0).
+Proof. exact fixed1_rows_read_proof. Qed.
+
+(* by_header_footer: the envelope is the first one at or after the reader's envelope index whose
+   header matches the line (fixed1_find_env), its lines run to the first line matching the footer
+   (hf_lines); a not_target envelope is consumed and the Read goes on *)
+Theorem fixed1_hf_read : forall re_match envs e0 tl s l0 r0 e h footer ls rest k,
+  envs = e0 :: tl -> e_hf e0 <> None ->
+  f1_readline (S (length (g_in s))) (g_in s) = Some (Some l0, r0) ->
+  let i := find_env re_match (S (length envs)) envs (g_env s) l0 in
+  nth_error envs i = Some e -> e_hf e = Some (h, footer) ->
+  hf_lines re_match footer l0 r0 ls rest ->
+  f1_read re_match (S k) envs s =
+  if e_not_target e then f1_read re_match k envs (mkF1 rest i)
+  else (ONode (T ElementNode (e_name e) FNone (kids_spec re_match (undone (e_cols e)) (l0 :: ls))), mkF1 rest i).
+Proof. exact fixed1_hf_read_proof. Qed.
+
+Theorem fixed1_find_env : forall re_match envs line fuel i, length envs - i < fuel ->
+  (forall e, In e envs -> e_hf e <> None) ->
+  let j := find_env re_match fuel envs i line in
+  i <= j /\
+  (forall j' e h f, i <= j' < j -> nth_error envs j' = Some e -> e_hf e = Some (h, f) -> re_match h line = false) /\
+  match nth_error envs j with
+  | Some e => exists h f, e_hf e = Some (h, f) /\ re_match h line = true
+  | None => True
+  end.
+Proof. exact find_env_spec. Qed.
+
+Theorem fixed1_hf_unmatched : forall re_match envs e0 tl s l0 r0 k,
+  envs = e0 :: tl -> e_hf e0 <> None ->
+  f1_readline (S (length (g_in s))) (g_in s) = Some (Some l0, r0) ->
+  nth_error envs (find_env re_match (S (length envs)) envs (g_env s) l0) = None ->
+  fst (f1_read re_match (S k) envs s) = OEOF.
+Proof. exact fixed1_hf_unmatched_proof. Qed.
+
+Example fixed1_nonvacuous :
+  (* by_rows 2; column a = runes [1,3) of the line starting with "T2", column b = runes [2,4) of any line *)
+  let e := mkEnv1 (hx "31") None 2 false
+             [mkFCol (hx "61") 1 2 None (Some (PPrefix (hx "5432"))); mkFCol (hx "62") 2 2 None None] in
+  lines_from (hx "0a543178790a5432c3a97a0a71") [hx "54317879"; hx "5432c3a97a"] (hx "71")
+  /\ f1_read pat_match 1 [e] (mkF1 (hx "0a543178790a5432c3a97a0a71") 0)
+     = (ONode (T ElementNode (hx "31") FNone [text_elem (hx "62") (hx "3178"); text_elem (hx "61") (hx "5432")]),
+        mkF1 (hx "71") 0).
+Proof.
+  split; [|vm_compute; reflexivity].
+  eapply lf_cons; [vm_compute; reflexivity|]. eapply lf_cons; [vm_compute; reflexivity|]. constructor.
+Qed.
+
+(* fixedlength2 column fidelity.  For every input, every regexp behaviour and every sequence of
+   RecReader calls from a fresh reader: the non-empty lines ByteReadLine returns form a stream
+   (streamF); the buffer holds exactly the lines read and not yet consumed (viewF); every delivered
+   envelope node is node_specF of a segment of the stream - per declared column, in declaration
+   order, the rune slice [start_pos, start_pos+length) (fixed_slice_spec) of the first line of the
+   segment selected by line_index / line_pattern, absent if none is - the segment is a well-formed
+   envelope of its declaration (seg_ok: `rows` lines, or from a line matching the header to the
+   first line matching the footer), consecutive deliveries take consecutive segments and together
+   they are exactly the consumed prefix of the stream (input order, nothing skipped or delivered
+   twice); no call reads a stale reference or panics. *)
+Theorem fixed2_column_fidelity : forall re_match input ops,
+  let '(es, dls, s') := runF re_match (f2_init input) ops in
+  exists all segs k,
+    streamF input (h_in s') all /\ viewF s' = skipn k all
+    /\ Forall ok_out es
+    /\ Forall2 (fun dt seg => snd dt = node_specF re_match (fst dt) seg /\ seg_ok re_match (fst dt) seg) dls segs
+    /\ concat segs = firstn k all.
+Proof. exact fixed2_sequence_proof. Qed.
+
 Example fixed2_nonvacuous :
   let d := mkEnv2 (hx "72") (HeaderFooter (PPrefix (hx "42")) (Some (PPrefix (hx "45")))) true 0 None
                   [mkFCol (hx "63") 2 2 (Some 2) None] in
@@ -214,20 +350,36 @@ Example fixed2_nonvacuous :
 Proof. vm_compute. auto. Qed.
 
 (* ---- the line reader (go-corelib ios.ByteReadLine over a 4096-byte bufio.Reader) ---------------------- *)
-(* Full statement: for every text, read_line = ideal_read_line.  FALSE on the unchanged tree
-   (known finding F22, fixed_last_line_refuted).  Proved under the guard line_fits (the line with
-   its terminator fits the buffer, or it is the unterminated last line and shorter than the
-   buffer); lines longer than the buffer are covered by the correspondence runs only. *)
-Theorem read_line_ideal_partial : forall T, line_fits T -> read_line T = ideal_read_line T.
-Proof. exact read_line_ideal_partial. Qed.
+(* every LF-terminated line, of ANY length (fragments of the buffer size are joined, a CR at the end
+   of a fragment is put back so that CRLF straddling a fragment boundary is still recognised): the
+   text up to the LF without a CR directly before it *)
+Theorem read_line_terminated : forall T x r,
+  split_lf T = (x, Some r) -> read_line T = RLOk (strip_last CR x) r.
+Proof. exact read_line_terminated_proof. Qed.
+
+(* Full statement: for every text, read_line = ideal_read_line.  FALSE on the unchanged tree (known
+   finding F22, fixed_last_line_refuted); proved under the named guard f22_guard: the text contains
+   an LF, or the unterminated last line is shorter than the buffer. *)
+Theorem read_line_ideal : forall T, f22_guard T -> read_line T = ideal_read_line T.
+Proof. exact read_line_ideal_proof. Qed.
+
+(* F22 exactly, for text without CR: an unterminated last line is lost iff its length is a positive
+   multiple of the buffer size *)
+Theorem read_line_unterminated_exact : forall x,
+  mem_byte LF x = false -> mem_byte CR x = false -> x <> [] ->
+  read_line x = if Nat.eqb (length x mod BUFSZ) 0 then RLEof else RLOk x [].
+Proof. exact read_line_unterminated_proof. Qed.
 
 Theorem fixed_last_line_refuted :
   exists T, T <> [] /\ read_line T = RLEof /\ ideal_read_line T = RLOk T [].
 Proof. exact fixed_last_line_refuted_proof. Qed.
 
-Example line_fits_nonvacuous : line_fits (hx "61620d0a63") /\ read_line (hx "61620d0a63") = RLOk (hx "6162") (hx "63").
+Example f22_guard_nonvacuous :
+  f22_guard (hx "61620d0a63") /\ read_line (hx "61620d0a63") = RLOk (hx "6162") (hx "63")
+  (* a 4097-byte line "a...a\r" + LF: the CR is the first byte of the second fragment *)
+  /\ read_line (repeat x61 4096 ++ hx "0d0a62") = RLOk (repeat x61 4096) (hx "62").
 Proof.
-  split; [|vm_compute; reflexivity]. unfold line_fits.
+  split; [|split; vm_compute; reflexivity]. unfold f22_guard.
   replace (split_lf (hx "61620d0a63")) with (hx "61620d", Some (hx "63")) by (vm_compute; reflexivity).
-  apply Nat.ltb_lt. vm_compute. reflexivity.
+  exact I.
 Qed.
